@@ -23,6 +23,12 @@ theorem C02_detector (g : DGraph) (fuel entry : Nat) (main : String) (ps : List 
   have : x ∈ entry :: rest := by simpa [hπe] using hx
   exact Dfs.walk_unvalidated g _ _ _ _ hw x this
 
+/-- NO PATH IS REPORTED TWICE (when no successor list names a block twice — the fourth pass never adds an edge twice; the
+    driver evaluates this premise on every program) -/
+theorem C02_no_duplicates (g : DGraph) (hg : ∀ b, (g.next b).Nodup) (fuel entry : Nat) (main : String)
+    (ps : List (List Nat)) (h : searchPaths g fuel entry [] [(none, main)] [[]] = some ps) : ps.Nodup :=
+  Dfs.searchPaths_nodup g hg fuel entry [] _ _ ps h
+
 /-- the short notation `'0 -> 2 -> 5'` determines the block sequence -/
 def shortNotation (p : List Nat) : String := " -> ".intercalate (p.map toString)
 
